@@ -1,10 +1,15 @@
 (** C13 — answers never depend on what was asked before (caches are invisible).  Property theorems only.
     Cache/Memo.v models the three wrappers of spil/util/caching.py (exact popitem eviction, any capacity)
     and functools.lru_cache (over-approximated: may forget anything); Cache/Wiring.v models how a python call
-    (positional / keyword spelling) becomes a cache key.  The tie to the code is the history correspondence
-    of tools/props/c13.py (answers after histories vs the pure model and vs fresh processes). *)
+    (positional / keyword spelling) becomes a cache key.  Cache/Desc.v makes a wrapper DATA: tools/extract_caching.py
+    translates spil/util/caching.py (python ast, fail-closed) into one descriptor per decorator and lists every decorated
+    function of the source, on every run (gen/CachingGen.v); the theorems below hold for every accepted descriptor, and the
+    generated file proves that the descriptors read from today's source are accepted and that every cached function uses one
+    of them.  The second tie to the code is the history correspondence of tools/props/c13.py (answers after histories
+    vs the pure model and vs fresh processes, long-lived Finder instances). *)
 From Coq Require Import List String Bool Arith.
-From Spil Require Import Base.Str Base.Dict Cache.Memo Cache.Wiring.
+From Spil Require Import Base.Str Base.Dict Cache.Memo Cache.Wiring Cache.Desc Cache.DescProofs.
+From SpilGen Require CachingGen.
 Import ListNotations.
 
 Section Transparent.
@@ -67,3 +72,61 @@ Theorem C13_nested : forall (K1 V1 K2 V2 : Type) keq1 keq2 (f2 : K2 -> V2) (g : 
   fst (cached_call K1 V1 _ keq1 (outer_body K1 V1 K2 V2 keq2 f2 g h n2) n1 st k) = f1 K1 V1 K2 V2 f2 g h k.
 Proof. exact nested_pure. Qed.
 Print Assumptions C13_nested.
+
+(** ** The wrappers as read from the source (gen/CachingGen.v, regenerated on every run) *)
+
+Section Source.
+Variables (K V S : Type) (keq : K -> K -> bool) (f : K -> V) (truthy : V -> bool).
+Variable body : K -> S -> V * S.
+Variable InvS : S -> Prop.
+Hypothesis body_pure : forall k s, InvS s -> fst (body k s) = f k /\ InvS (snd (body k s)).
+Hypothesis keq_sound : forall a b, keq a b = true -> f a = f b.
+
+(* every wrapper found in spil/util/caching.py, with the eviction and storing policy and the capacity it has in the source:
+   after any history of calls every answer is the pure one (and as from the empty cache) *)
+Theorem C13_source_wrappers_transparent : forall name d, In (name, d) CachingGen.caching_wrappers ->
+  forall h st, InvSt K V S f InvS st ->
+  fst (desc_run K V S keq truthy body (wd_evict d) (wd_store d) CachingGen.max_size st h) = map f h /\
+  forall k s1, InvS s1 ->
+    fst (desc_call K V S keq truthy body (wd_evict d) (wd_store d) CachingGen.max_size
+           (snd (desc_run K V S keq truthy body (wd_evict d) (wd_store d) CachingGen.max_size st h)) k)
+    = fst (desc_call K V S keq truthy body (wd_evict d) (wd_store d) CachingGen.max_size ([], s1) k).
+Proof.
+  intros name d _ h st Hst. split.
+  - exact (proj1 (desc_run_pure K V S keq f truthy body InvS body_pure keq_sound (wd_evict d) (wd_store d) CachingGen.max_size h st Hst)).
+  - intros k s1 Hs1.
+    exact (desc_history_independent K V S keq f truthy body InvS body_pure keq_sound (wd_evict d) (wd_store d) CachingGen.max_size h k st s1 Hst Hs1).
+Qed.
+End Source.
+Print Assumptions C13_source_wrappers_transparent.
+
+(* ... at any capacity, any eviction / storing policy (reduced capacities of the histories) *)
+Theorem C13_desc_transparent : forall (K V S : Type) keq (f : K -> V) truthy body (InvS : S -> Prop),
+  (forall k s, InvS s -> fst (body k s) = f k /\ InvS (snd (body k s))) -> (forall a b, keq a b = true -> f a = f b) ->
+  forall e st n ks s, InvSt K V S f InvS s ->
+  fst (desc_run K V S keq truthy body e st n s ks) = map f ks /\ InvSt K V S f InvS (snd (desc_run K V S keq truthy body e st n s ks)).
+Proof. intros K V S keq f truthy body InvS Hb Hk e st n ks s. exact (desc_run_pure K V S keq f truthy body InvS Hb Hk e st n ks s). Qed.
+Print Assumptions C13_desc_transparent.
+
+(* the key each wrapper of the source computes determines the call it forwards (positional / keyword spellings bind alike) *)
+Theorem C13_source_keys_sound : forall name d, In (name, d) CachingGen.caching_wrappers ->
+  forall params c1 c2, admissible d c1 -> admissible d c2 ->
+  NoDup (map fst (c_kw c1)) -> NoDup (map fst (c_kw c2)) ->
+  key_under (wd_key d) c1 = key_under (wd_key d) c2 -> bind params c1 = bind params c2.
+Proof.
+  intros name d Hin params c1 c2. apply desc_key_sound.
+  pose proof CachingGen.wrappers_accepted as H. rewrite forallb_forall in H. exact (H (name, d) Hin).
+Qed.
+Print Assumptions C13_source_keys_sound.
+
+(* the rejected shapes really are unsound: keyword names only (the pinned tree), positional arguments only *)
+Theorem C13_rejected_shapes_unsound :
+  (exists params c1 c2, key_under KNamesOnly c1 = key_under KNamesOnly c2 /\ bind params c1 <> bind params c2) /\
+  (exists params c1 c2, key_under KArgs c1 = key_under KArgs c2 /\ bind params c1 <> bind params c2).
+Proof. split; [exact desc_names_only_refuted | exact desc_args_only_refuted]. Qed.
+Print Assumptions C13_rejected_shapes_unsound.
+
+(* every cached function of the source is decorated by an accepted wrapper or by functools' cache (C13_transparent_any_eviction) *)
+Theorem C13_wiring_known : forallb (known_decorator CachingGen.caching_wrappers) CachingGen.wired_functions = true.
+Proof. exact CachingGen.wiring_known. Qed.
+Print Assumptions C13_wiring_known.
